@@ -128,6 +128,8 @@ type SimConfig struct {
 	FreshTwin bool
 	// Trace records, after every op, everything the primary world returned (C13).
 	Trace bool
+	// TraceNoShape leaves the hidden-state digest (which names the registered types) out of the trace.
+	TraceNoShape bool
 	// OwnedIf can claim a finding of a category that is not owned unconditionally.
 	OwnedIf func(s *Sim, f *Finding) bool
 }
@@ -184,6 +186,7 @@ type Sim struct {
 	Trace []string
 	// LastQueryOrder is the order in which the last scripted query visited its entities.
 	LastQueryOrder []ecs.Entity
+	pendingEvents  []pendingEvent
 	// ReplayExtra is stored in the replay file next to the ops.
 	ReplayExtra any
 	// QueryHook, if set, is called with the open query a Q variant returned, before it is iterated.
@@ -398,6 +401,7 @@ func (s *Sim) Apply(op Op) {
 	o := &s.Ops[len(s.Ops)-1]
 	s.TargetDied = false
 	s.Flags = nil
+	s.pendingEvents = nil
 	s.LastQueryOrder = nil
 	s.Step++
 	prevHandles := len(s.B.H)
@@ -419,6 +423,7 @@ func (s *Sim) Apply(op Op) {
 		return
 	}
 	s.VerifyAll()
+	s.flushEvents()
 }
 
 // applyInner runs an op that is part of another op (lock episodes) without booking it.
